@@ -45,7 +45,7 @@ ASSUMPTIONS = [
     'The node assigns real ids (>= 1000) on alloc, as a real node does; interpreter-local placeholder ids are mapped by position.',
     'Independent key hashing covers the key types generated here (int, string, bytes, pair int string, pair int int int string), using the legacy (nested-pair) packing for combs, as the protocol does for big_map keys.',
 ]
-EXPECTED_PROBES = ['read_chain_only_key', 'update_chain_only_key', 'remove_chain_only_key', 'reinsert_after_remove', 'read_after_local_remove_of_chain_key',
+EXPECTED_PROBES = ['empty_list_value_on_chain_read', 'sibling_key_types_same_text', 'read_chain_only_key', 'update_chain_only_key', 'remove_chain_only_key', 'reinsert_after_remove', 'read_after_local_remove_of_chain_key',
                    'commit_with_removals', 'abandoned_session', 'failed_cell_midway', 'transient_on_read', 'second_txn_reads_first_txn_writes', 'dup_divergent']
 
 URI = 'http://node0.sim:8732'
@@ -92,6 +92,12 @@ def pack_key(ktype, k):
         body = b'\x01' + len(raw).to_bytes(4, 'big') + raw
         for i in reversed(ints):
             body = b'\x07\x07' + b'\x00' + _zarith_signed(i) + body
+    elif ktype in ('address', 'key_hash'):
+        tag = {'tz1': 0, 'tz2': 1, 'tz3': 2}[k[:3]]
+        raw = bytes([tag]) + oc.b58dec(k[:3], k)
+        if ktype == 'address':
+            raw = b'\x00' + raw
+        body = b'\x0a' + len(raw).to_bytes(4, 'big') + raw
     else:
         raise core.HarnessError(ktype)
     return b'\x05' + body
@@ -104,7 +110,7 @@ def key_hash(ktype, k):
 def key_michelson(ktype, k):
     if ktype == 'int':
         return str(k)
-    if ktype == 'string':
+    if ktype in ('string', 'address', 'key_hash'):
         return f'"{k}"'
     if ktype == 'bytes':
         return '0x' + k
@@ -128,7 +134,7 @@ def flatten_pairs(m):
 def key_micheline(ktype, k):
     if ktype == 'int':
         return {'int': str(k)}
-    if ktype == 'string':
+    if ktype in ('string', 'address', 'key_hash'):
         return {'string': k}
     if ktype == 'bytes':
         return {'bytes': k}
@@ -137,29 +143,65 @@ def key_micheline(ktype, k):
     return {'prim': 'Pair', 'args': [{'int': str(k[0])}, {'string': k[1]}]}
 
 
-KTYPE_M = {'int': 'int', 'string': 'string', 'bytes': 'bytes', 'pair': '(pair int string)', 'comb4': '(pair int int int string)'}
+KTYPE_M = {'int': 'int', 'string': 'string', 'bytes': 'bytes', 'pair': '(pair int string)', 'comb4': '(pair int int int string)', 'address': 'address',
+           'key_hash': 'key_hash'}
+VTYPE_M = {'string': 'string', 'list_nat': '(list nat)'}
+_ADDRS = ['tz1QBxCwcEEcvz5H5U1WkRvuGCVBFgiQGBbe', 'tz1iDKWtiNDiUJYuPv557Ag547zfS1MhZ17g', 'tz2BzLwiqRPz3nouEUdsywHpKJy9TsZWeEh3', 'tz2PYyg1yu8EgS6vDMwTu8ZrsxDEkgFwi8VJ',
+          'tz3TW8qv2nGn3QnRU7TiJtu8HrZoArWJdXte', 'tz3U5FFmcM57YVo1eb7W9rkS3NbDWeE1av6X']
+
+
+def _num(tok):
+    return int(''.join(ch for ch in tok if ch.isdigit()) or '0')
+
+
+def val_micheline(vtype, tok):
+    if vtype == 'string':
+        return {'string': tok}
+    return [] if tok.startswith('E') else [{'int': str(_num(tok))}]
+
+
+def val_michelson(vtype, tok):
+    if vtype == 'string':
+        return f'"{tok}"'
+    return '{}' if tok.startswith('E') else '{ %d }' % _num(tok)
+
 UNIVERSES = {
     'int': [0, 1, -1, 63, 64, -65, 10**12],
     'string': ['', 'a', 'b', 'ab', 'key with space', 'zzzzzzzzzzzzzzzzzzzzzzzzzzzzzzzz'],
     'bytes': ['', '00', '01', 'ff', 'deadbeef', '0000'],
     'pair': [[0, ''], [0, 'a'], [1, 'a'], [-1, 'a'], [1, 'b'], [64, 'zz']],
     'comb4': [[0, 0, 0, ''], [1, 2, 3, 'x'], [1, 1, 1, 'a'], [-1, 64, 0, 'a'], [1, 2, 3, 'y'], [0, 0, 1, '']],
+    'address': _ADDRS,
+    'key_hash': _ADDRS,
 }
 
 
 def gen(seed, tier):
     rng = rng_for(seed, 15)
-    ktype = rng.choice(['int', 'int', 'string', 'bytes', 'pair', 'comb4'])
+    ktype = rng.choice(['int', 'int', 'string', 'bytes', 'pair', 'comb4', 'address', 'address'])
+    # the second on-chain big_map has the same key type, or a sibling type whose keys are written with the same text
+    sibling = {'address': 'key_hash', 'string': 'string'}.get(ktype, ktype)
+    ktypes = {'1000': ktype, '1001': sibling if rng.random() < 0.8 else ktype}
+    if rng.random() < 0.5:
+        ktypes = {'1000': ktypes['1001'], '1001': ktypes['1000']}
+    vtype = rng.choice(['string', 'string', 'list_nat'])
     nkeys = rng.choice([1, 2, 3, 4, 6])
     keys = rng.sample(UNIVERSES[ktype], min(nkeys, len(UNIVERSES[ktype])))
     chain0 = {}
     vn = 0
+
+    def newval(prefix):
+        nonlocal vn
+        vn += 1
+        if vtype == 'list_nat' and rng.random() < 0.25:
+            return f'E{vn}'  # the empty list: a legal value whose JSON form is falsy
+        return f'{prefix}{vn}'
+
     for bm in ('1000', '1001'):
         chain0[bm] = {}
         for ki in range(len(keys)):
             if rng.random() < 0.5:
-                vn += 1
-                chain0[bm][str(ki)] = f'c{vn}'
+                chain0[bm][str(ki)] = newval('c')
     ntx = rng.choice([1, 1, 2, 3, 5]) if tier == 'thorough' else rng.choice([1, 1, 2, 3])
     p_fail = rng.choice([0.0, 0.0, 0.15, 0.3])
     p_fault = rng.choice([0.0, 0.0, 0.2, 0.5])
@@ -171,14 +213,12 @@ def gen(seed, tier):
         if src == 'literal':
             lit = {}
             for ki in sorted(rng.sample(range(len(keys)), rng.randint(0, len(keys)))):
-                vn += 1
-                lit[str(ki)] = f'l{vn}'
+                lit[str(ki)] = newval('l')
             st['lit'] = lit
         steps.append(st)
         for _ in range(rng.randint(1, 12 if tier == 'thorough' else 8)):
             op = rng.choice(opmix)
-            vn += 1
-            s = {'op': op, 'k': rng.randrange(len(keys)), 'v': f'v{vn}'}
+            s = {'op': op, 'k': rng.randrange(len(keys)), 'v': newval('v')}
             if op.startswith('dup_'):
                 s['inner'] = rng.choice(['upd_some', 'upd_none', 'gau_some'])
             if rng.random() < p_fail:
@@ -188,23 +228,24 @@ def gen(seed, tier):
                                                 {'f': 'latency', 'ms': rng.choice([10, 5000])}])}
             steps.append(s)
         steps.append({'op': 'commit'} if rng.random() < 0.8 else {'op': 'abandon'})
-    return {'prop': ID, 'ktype': ktype, 'keys': keys, 'chain0': chain0, 'steps': steps}
+    return {'prop': ID, 'ktype': ktype, 'ktypes': ktypes, 'vtype': vtype, 'keys': keys, 'chain0': chain0, 'steps': steps}
 
 
-def cell_for(step, ktype, keys):
+def cell_for(step, ktype, keys, vtype='string'):
     K = KTYPE_M[ktype]
+    V = VTYPE_M[vtype]
     k = key_michelson(ktype, tuple(keys[step['k']]) if ktype in ('pair', 'comb4') else keys[step['k']])
-    v = f'"{step["v"]}"'
+    v = val_michelson(vtype, step['v'])
 
     def upd(kind):
         if kind == 'upd_some':
-            return [f'PUSH string {v}', 'SOME', f'PUSH {K} {k}', 'UPDATE']
+            return [f'PUSH {V} {v}', 'SOME', f'PUSH {K} {k}', 'UPDATE']
         if kind == 'upd_none':
-            return ['NONE string', f'PUSH {K} {k}', 'UPDATE']
+            return [f'NONE {V}', f'PUSH {K} {k}', 'UPDATE']
         if kind == 'gau_some':
-            return [f'PUSH (option string) (Some {v})', f'PUSH {K} {k}', 'GET_AND_UPDATE']
+            return [f'PUSH (option {V}) (Some {v})', f'PUSH {K} {k}', 'GET_AND_UPDATE']
         if kind == 'gau_none':
-            return ['PUSH (option string) None', f'PUSH {K} {k}', 'GET_AND_UPDATE']
+            return [f'PUSH (option {V}) None', f'PUSH {K} {k}', 'GET_AND_UPDATE']
         raise core.HarnessError(kind)
 
     op = step['op']
@@ -251,13 +292,15 @@ def execute(scn, want_log=False):
     sim = core.Sim()
     node = nodesim.SimNode(sim, {})
     node.bake(2)
-    ktype, keys = scn['ktype'], [tuple(k) if isinstance(k, list) else k for k in scn['keys']]
-    K = KTYPE_M[ktype]
-    H = [key_hash(ktype, k) for k in keys]
+    keys = [tuple(k) if isinstance(k, list) else k for k in scn['keys']]
+    vtype = scn.get('vtype', 'string')
+    V = VTYPE_M[vtype]
+    bm_ktype = {int(bm): kt for bm, kt in (scn.get('ktypes') or {'1000': scn['ktype'], '1001': scn['ktype']}).items()}
+    HS = {kt: [key_hash(kt, k) for k in keys] for kt in set(bm_ktype.values())}
     # durable state + reference model
     model = {}
     for bm, content in scn['chain0'].items():
-        node.big_maps[int(bm)] = {H[int(ki)]: {'string': v} for ki, v in content.items()}
+        node.big_maps[int(bm)] = {HS[bm_ktype[int(bm)]][int(ki)]: val_micheline(vtype, v) for ki, v in content.items()}
         model[int(bm)] = {int(ki): v for ki, v in content.items()}
     next_id = [2000]
     tr = core.Transport(sim, node.handle, max_requests=3000)
@@ -335,6 +378,10 @@ def execute(scn, want_log=False):
                     src = 'chain'
                 sess = {'interp': interp, 'overlay': {}, 'removed_once': {}, 'src': src}
                 r0 = None
+                ktype = bm_ktype[int(st['bm'])] if src != 'prev' else bm_ktype[last_committed[0]]
+                K = KTYPE_M[ktype]
+                H = HS[ktype]
+                sess['ktype'] = ktype
                 if src in ('chain', 'prev'):
                     bm = int(st['bm']) if src == 'chain' else last_committed[0]
                     sess['base_id'] = bm
@@ -347,10 +394,10 @@ def execute(scn, want_log=False):
                     sess['base'] = {}
                     items = st.get('lit', {}) if src == 'literal' else {}
                     pairs = sorted(((keys[int(ki)], v, int(ki)) for ki, v in items.items()), key=lambda t: _sort_key(ktype, t[0]))
-                    lit = '{ ' + ' ; '.join(f'Elt {key_michelson(ktype, k)} "{v}"' for k, v, _ in pairs) + ' }'
+                    lit = '{ ' + ' ; '.join(f'Elt {key_michelson(ktype, k)} {val_michelson(vtype, v)}' for k, v, _ in pairs) + ' }'
                     for k, v, ki in pairs:
                         sess['overlay'][ki] = v
-                r0 = run(f'parameter unit ; storage (big_map {K} string) ; code {{ CDR ; NIL operation ; PAIR }}')
+                r0 = run(f'parameter unit ; storage (big_map {K} {V}) ; code {{ CDR ; NIL operation ; PAIR }}')
                 r1 = run(f'BEGIN Unit {lit}')
                 r2 = run('CDR')
                 if any(r.error is not None for r in (r0, r1, r2)):
@@ -397,6 +444,7 @@ def execute(scn, want_log=False):
                     next_id[0] += 1
                     node.big_maps[target] = {}
                     model[target] = {}
+                    bm_ktype[target] = sess['ktype']
                 # the node applies the diff to its durable store
                 store = node.big_maps.setdefault(target, {})
                 seen_hashes = set()
@@ -417,7 +465,7 @@ def execute(scn, want_log=False):
                     else:
                         final[ki] = ov
                 model[target] = final
-                want = {H[ki]: {'string': v} for ki, v in final.items()}
+                want = {H[ki]: val_micheline(vtype, v) for ki, v in final.items()}
                 if any(v == REMOVED for v in sess['overlay'].values()):
                     bump('commit_with_removals')
                 # every diff entry's key_hash must be the hash of its own key
@@ -443,12 +491,14 @@ def execute(scn, want_log=False):
                             store=store.get(hh), expected=want.get(hh), updates=updates, overlay={str(k): v for k, v in sess['overlay'].items()},
                             chain_before={str(k): v for k, v in sess['base'].items()})
                     # keep the node authoritative for the next transaction (the model follows the store)
-                    model[target] = {H.index(h): v['string'] for h, v in store.items() if h in H}
+                    back = {json.dumps(val_micheline(vtype, tok), sort_keys=True): tok for tok in list(final.values()) + list(sess['base'].values()) + [o for o in sess['overlay'].values() if o != REMOVED]}
+                    model[target] = {H.index(h): back.get(json.dumps(v, sort_keys=True), 'E0' if v == [] else 'x0') for h, v in store.items() if h in H}
                 last_committed[0] = target
                 sess = None
                 continue
             # ---- an operation cell
-            instrs, observe = cell_for(st, ktype, keys)
+            ktype = sess['ktype']
+            instrs, observe = cell_for(st, ktype, keys, vtype)
             fail = st.get('fail')
             fault = None
             if fail:
@@ -474,6 +524,10 @@ def execute(scn, want_log=False):
             on_chain_only = (ki in sess['base']) and (ki not in sess['overlay'])
             if op in ('get', 'mem', 'gau_some', 'gau_none') and on_chain_only:
                 bump('read_chain_only_key')
+                if str(sess['base'].get(ki, '')).startswith('E'):
+                    bump('empty_list_value_on_chain_read')
+            if len(set(bm_ktype.values())) > 1:
+                probes['sibling_key_types_same_text'] = 1
             if kind in ('upd_some', 'gau_some') and on_chain_only and op != 'dup_drop':
                 bump('update_chain_only_key')
             if kind in ('upd_none', 'gau_none') and on_chain_only and op != 'dup_drop':
@@ -491,7 +545,7 @@ def execute(scn, want_log=False):
                 if op == 'mem':
                     want = {'prim': 'True' if cur is not None else 'False'}
                 else:
-                    want = {'prim': 'Some', 'args': [{'string': cur}]} if cur is not None else {'prim': 'None'}
+                    want = {'prim': 'Some', 'args': [val_micheline(vtype, cur)]} if cur is not None else {'prim': 'None'}
                 judged[0] += 1
                 if top != want:
                     violate('observation', f'observation:{op}:{pre_state}', cell=' ; '.join(instrs), got=top, expected=want, key=keys[ki],
@@ -519,7 +573,7 @@ def execute(scn, want_log=False):
         'virtual_ms': sim.now_ms,
         'unmodelled': dict(node.unmodelled),
         'digest': sim.digest(),
-        'summary': {'ktype': ktype, 'keys': len(keys), 'steps': len(scn['steps']), 'requests': tr.attempts, 'big_maps_on_node': sorted(node.big_maps)},
+        'summary': {'ktypes': scn.get('ktypes'), 'vtype': vtype, 'keys': len(keys), 'steps': len(scn['steps']), 'requests': tr.attempts, 'big_maps_on_node': sorted(node.big_maps)},
     }
     if want_log:
         out['log'] = sim.log
@@ -536,6 +590,8 @@ def _sort_key(ktype, k):
         return tuple(k[:-1]) + (k[-1].encode(),)
     if ktype == 'string':
         return k.encode()
+    if ktype in ('address', 'key_hash'):
+        return pack_key(ktype, k)
     return k
 
 
@@ -563,10 +619,22 @@ def simplify(scn):
             c = cp()
             del c['chain0'][bm][ki]
             yield c
-    if scn['ktype'] != 'int':
+    kts = scn.get('ktypes') or {}
+    if len(set(kts.values())) > 1:
+        for kt in sorted(set(kts.values())):
+            c = cp()
+            c['ktypes'] = {'1000': kt, '1001': kt}
+            c['ktype'] = kt
+            yield c
+    if scn['ktype'] != 'int' and len(set(kts.values())) <= 1:
         c = cp()
         c['ktype'] = 'int'
+        c['ktypes'] = {'1000': 'int', '1001': 'int'}
         c['keys'] = UNIVERSES['int'][: len(scn['keys'])]
+        yield c
+    if scn.get('vtype', 'string') != 'string':
+        c = cp()
+        c['vtype'] = 'string'
         yield c
 
 
